@@ -103,7 +103,7 @@ def coq_sources():
 
 def scan_forbidden():
     bad = []
-    for p in coq_sources() + glob.glob(os.path.join(COQ, "extract/*.v")):
+    for p in coq_sources():
         txt = open(p).read()
         # strip comments (non-nested handling is enough: we never put the words in comments on purpose)
         txt2 = re.sub(r"\(\*.*?\*\)", "", txt, flags=re.S)
@@ -158,24 +158,55 @@ def print_assumptions(prop_file):
 
 # ---------------------------------------------------------------- extraction + comparator
 
+def gen_extract(gen):
+    """Extract.v and main.ml are generated from coq/extract/parts/*.txt and ocaml/cmp_*.ml, so that
+    components can be added without editing shared files."""
+    mods, names = [], []
+    for p in sorted(glob.glob(os.path.join(COQ, "extract/parts/*.txt"))):
+        for line in open(p):
+            line = line.strip()
+            if not line or line.startswith("#"):
+                continue
+            if line.startswith("modules:"):
+                for m in line.split(":", 1)[1].split():
+                    if m not in mods:
+                        mods.append(m)
+            else:
+                for n in line.split():
+                    if n not in names:
+                        names.append(n)
+    v = ("(* GENERATED from coq/extract/parts/*.txt.  Only ExtrOcamlBasic is used: bool/option/unit/list/prod/sumbool\n"
+         "   map to OCaml's, andb/orb/negb/fst/snd are inlined; nat/positive/N/Z stay Coq inductives. *)\n"
+         "From Coq Require Import Extraction ExtrOcamlBasic ZArith List.\n"
+         "From Sctp Require Import %s.\nExtraction Language OCaml.\nExtraction \"model.ml\"\n  %s.\n" % (" ".join(mods), "\n  ".join(names)))
+    write_if_changed(os.path.join(gen, "Extract.v"), v)
+    comps = sorted(os.path.basename(p)[4:-3] for p in glob.glob(os.path.join(VERIF, "ocaml/cmp_*.ml")))
+    m = "let () =\n  let fin () = exit (if !Zio.mismatches > 0 then 1 else 0) in\n  match Array.to_list Sys.argv with\n"
+    for c in comps:
+        m += "  | [_; \"%s\"; path] -> Cmp_%s.run path; fin ()\n" % (c, c)
+    m += "  | _ -> prerr_endline \"usage: cmp <component> <trace>\"; exit 2\n"
+    write_if_changed(os.path.join(gen, "main.ml"), m)
+
+
 def build_cmp():
     gen = os.path.join(VERIF, "ocaml/gen")
     os.makedirs(gen, exist_ok=True)
-    srcs = sorted(glob.glob(os.path.join(VERIF, "ocaml/*.ml"))) + [os.path.join(COQ, "extract/Extract.v")] + \
+    srcs = sorted(glob.glob(os.path.join(VERIF, "ocaml/*.ml"))) + sorted(glob.glob(os.path.join(COQ, "extract/parts/*.txt"))) + \
         sorted(glob.glob(os.path.join(COQ, "model/*.v"))) + [os.path.join(COQ, "gen/Gen.v")]
     h = file_hash(srcs)
     stamp = os.path.join(BUILD, "cmp.stamp")
     cmpbin = os.path.join(BUILD, "cmp")
     if os.path.exists(cmpbin) and os.path.exists(stamp) and open(stamp).read() == h:
         return True, "cached"
-    rc, out, _ = sh(["coqc", "-Q", "../../coq/gen", "Sctp", "-Q", "../../coq/model", "Sctp",
-                     "-Q", "../../coq/extract", "Sctp", "../../coq/extract/Extract.v"], cwd=gen, timeout=900)
+    gen_extract(gen)
+    rc, out, _ = sh(["coqc", "-Q", "../../coq/gen", "Sctp", "-Q", "../../coq/model", "Sctp", "Extract.v"], cwd=gen, timeout=900)
     if rc != 0:
         return False, "extraction failed:\n" + out
-    mls = ["zio.ml"] + sorted(os.path.basename(p) for p in glob.glob(os.path.join(VERIF, "ocaml/cmp_*.ml"))) + ["main.ml"]
+    mls = ["zio.ml"] + sorted(os.path.basename(p) for p in glob.glob(os.path.join(VERIF, "ocaml/cmp_*.ml")))
     for m in mls:
         shutil.copy(os.path.join(VERIF, "ocaml", m), os.path.join(gen, m))
-    rc, out2, _ = sh(["ocamlfind", "ocamlopt", "-O2" if False else "-inline", "50", "-w", "-a", "-package", "zarith", "-linkpkg",
+    mls.append("main.ml")
+    rc, out2, _ = sh(["ocamlfind", "ocamlopt", "-inline", "50", "-w", "-a", "-package", "zarith", "-linkpkg",
                       "model.mli", "model.ml"] + mls + ["-o", cmpbin], cwd=gen, timeout=900)
     if rc != 0:
         return False, "comparator build failed:\n" + out2
